@@ -167,7 +167,7 @@ class SelectEventLoop(EventLoop):
         """
         Call all the registered idle callbacks.
         """
-        for callback in self._idle_callbacks.values():
+        for callback in list(self._idle_callbacks.values()):
             callback()
 
     def run(self) -> None:
